@@ -300,6 +300,9 @@ def build(run):
     callers = scan.method_callers('save_persistent_state')
     run.scan('save_sites', callers == ['edzed/addons.py:AddonPersistence.event', 'edzed/simulator.py:Circuit._init_sblocks_sync_2', 'edzed/simulator.py:Circuit.run_forever'], f'{callers}')
     run.replayer('FSM._set_timer/post:callback_clears_the_fired_handle', lambda run_, ob, model: open('/verif/specs/replay_c06.py').read())
-    run.unclaim('the save sites in run_forever / _init_sblocks_sync_2 (coroutine bodies: see C08/C05); equality of float timestamps beyond real arithmetic')
+    from specs import lifecycle, startup
+    startup.verify_startup(run)             # _init_sblocks_sync_2: states are saved after the initialisation, only with a storage
+    lifecycle.verify_run_forever(run)       # clean-up: states + stop time saved iff the start completed, before the blocks are stopped
+    run.unclaim('equality of float timestamps beyond real arithmetic')
     run.assume('get_state() is a deterministic function of the block state; the three clock reads of looptimes._get_timediff are simultaneous')
     run.trust('SBlock.event (C11/C09), timer contracts (C04), Circuit.is_ready (C14); the storage is a dict-like object reached through the heap')
